@@ -20,6 +20,24 @@ chunksizes = Contract(
     ensures=[("value", "result == chunksize + (1 if ind < residual else 0)")],
 )
 
+def IDEAL(m):
+    """row at which division number m would start if every step had its ideal size (chunksizes(0) + ... + chunksizes(m-1))"""
+    return f"(({m}) * chunksize + (({m}) if ({m}) < residual else residual))"
+
+
+# EX: the case in which the property demands exactly npartitions partitions
+EX = "npartitions is not None and NU >= npartitions"
+COUNT_INV = [
+    ("exact-facts", f"implies({EX}, chunksize is not None and chunksize >= 1 and residual >= 0 and residual < npartitions and chunksize * npartitions + residual == len(seq) and subtract_drift)"),
+    ("count-upper", f"implies({EX}, len(divisions) <= npartitions)"),
+    ("C45-location-is-ideal-position-plus-drift", f"implies({EX}, locations[len(locations) - 1] == {IDEAL('len(divisions) - 1')} + drift)"),
+    ("C45-loop-ends-exactly-when-npartitions-divisions-exist", f"implies({EX}, (i < len(seq)) == (len(divisions) < npartitions))"),
+    ("enforce", f"implies(({EX}) and duplicates, enforce_exact)"),
+    ("last-unique", f"implies(({EX}) and duplicates, 0 <= LASTU and LASTU < len(seq_unique) and seq_unique[LASTU] == divisions[len(divisions) - 1])"),
+    ("C45-enough-distinct-values-left", f"implies(({EX}) and duplicates, divs_remain <= len(offsets) - 1 - LASTU)"),
+    ("no-duplicates-no-drift", f"implies(({EX}) and not duplicates, drift == 0 and i == {IDEAL('len(divisions)')})"),
+]
+
 INV = [
     ("shape", "len(divisions) == len(locations) and len(locations) >= 1 and locations[0] == 0 and divisions[0] == seq[0]"),
     ("C45-division-is-value-at-location", "all(0 <= locations[j] and locations[j] < len(seq) and divisions[j] == seq[locations[j]] for j in range(len(locations)))"),
@@ -29,7 +47,7 @@ INV = [
     ("ind-cache", "implies(duplicates and ind is not None, 0 <= ind and ind <= len(offsets) and (i == offsets[ind] if ind < len(offsets) else i == len(seq)))"),
     ("ind-none-without-duplicates", "implies(not duplicates, ind is None)"),
     ("divs-remain", "implies(enforce_exact, divs_remain is not None and divs_remain == npartitions - len(divisions))"),
-]
+] + COUNT_INV
 
 OFFSET_FACTS = (
     'assert_(all(0 <= offsets[q] and offsets[q] < len(seq) and seq[offsets[q]] == seq_unique[q] for q in range(len(seq_unique))), "offset-points-at-its-value")\n'
@@ -42,7 +60,7 @@ sdl = Contract(
     params={"seq": SI, "npartitions": OI, "chunksize": OI},
     defaults={"npartitions": "None", "chunksize": "None"},
     locals={"seq_unique": T.Opt(SI), "offsets": T.Opt(SI), "ind": OI, "divs_remain": OI, "divisions": SI, "locations": SI,
-            "residual": T.Int, "drift": T.Int, "i": T.Int, "pos": T.Int, "div": T.Int, "enforce_exact": T.Bool, "duplicates": T.Bool, "subtract_drift": T.Bool},
+            "residual": T.Int, "drift": T.Int, "NU": T.Int, "LASTU": T.Int, "i": T.Int, "pos": T.Int, "div": T.Int, "enforce_exact": T.Bool, "duplicates": T.Bool, "subtract_drift": T.Bool},
     returns=T.Tup(SI, SI),
     requires=[
         ("nonempty", "len(seq) >= 1"),
@@ -57,10 +75,13 @@ sdl = Contract(
         ("C45-locations-strictly-increase", "all(result[1][j] < result[1][j + 1] for j in range(len(result[1]) - 1))"),
         ("C45-division-is-value-at-location", "all(result[0][j] == seq[result[1][j]] for j in range(len(result[1]) - 1)) and result[0][len(result[0]) - 1] == seq[len(seq) - 1]"),
         ("C45-equal-values-never-straddle", "all(seq[result[1][j] - 1] < seq[result[1][j]] for j in range(1, len(result[1]) - 1))"),
+        ("C45-npartitions-met-exactly-when-enough-distinct-values", "implies(npartitions is not None and len(set(seq)) >= npartitions, len(result[1]) - 1 == npartitions)"),
     ],
     raises=[("ValueError", "(npartitions is None) == (chunksize is None)", "exactly-one")],
     loops={0: dict(invariant=INV)},
     ghost=[
+        ("after", "seq_unique = sorted(set(seq))", 'NU = len(seq_unique)\nLASTU = 0\nassert_(NU == len(set(seq)), "NU-is-the-number-of-distinct-values")\nassert_(seq_unique[0] == seq[0], "smallest-value-first")'),
+        ("after", "locations.append(pos)", "if duplicates:\n    LASTU = ind\nif npartitions is not None and NU >= npartitions and len(divisions) <= npartitions - 1:\n    lemma_ideal_mono(len(divisions), npartitions - 1, chunksize, residual)\nif npartitions is not None and NU >= npartitions and len(divisions) == npartitions:\n    assert_((npartitions - 1) * chunksize + residual + chunksize == len(seq), \"ideal-end\")\n    assert_(i >= len(seq), \"the-step-after-the-last-division-reaches-the-end\")"),
         ("after", "offsets = [bisect.bisect_left(seq, x)", OFFSET_FACTS),
         ("after", "if ind is None:", 'assert_(implies(duplicates, seq[i] in seq_unique), "value-is-among-the-unique-values")\nassert_(implies(duplicates, ind is not None and 0 <= ind and ind < len(seq_unique) and seq_unique[ind] == seq[i]), "ind-finds-the-value")'),
         ("after", "chunksize = len(seq) // npartitions", "lemma_divmod(len(seq), npartitions)"),
